@@ -66,6 +66,14 @@ pub fn create_with(disk: &Disk, kp: PartialKeypair, cache: CacheCfg) -> CallResu
     })
 }
 
+/// Create a fresh core over whatever the disk holds (`Storage::open(.., overwrite = true)`).
+pub fn create_overwrite(disk: &Disk, kp: PartialKeypair) -> CallResult<Hypercore> {
+    run(async {
+        let storage = disk.storage_overwrite_async().await?;
+        HypercoreBuilder::new(storage).key_pair(kp).build().await
+    })
+}
+
 pub fn create(disk: &Disk, kp: PartialKeypair) -> CallResult<Hypercore> {
     create_with(disk, kp, CacheCfg::Off)
 }
